@@ -231,6 +231,8 @@ impl Object {
     /// It is up to the caller to ensure the object is actually heap-allocated and points to a valid memory location.
     #[inline]
     unsafe fn get<'a, T>(self) -> &'a T {
+        #[cfg(feature = "verif")]
+        crate::verif::heap_check_live(self.as_ptr() as usize);
         &*(self.as_ptr() as *const T)
     }
 
@@ -238,6 +240,8 @@ impl Object {
     /// It is up to the caller to ensure the object is actually heap-allocated and points to a valid memory location.
     #[inline]
     unsafe fn get_mut<'a, T>(self) -> &'a mut T {
+        #[cfg(feature = "verif")]
+        crate::verif::heap_check_live(self.as_ptr() as usize);
         &mut *(self.as_ptr() as *mut T)
     }
 
@@ -246,6 +250,12 @@ impl Object {
     #[inline]
     pub fn is_heap_allocated(self) -> bool {
         self.0 as usize & TAG_MASK >= Type::Float as usize
+    }
+
+    /// The raw tagged word
+    #[cfg(feature = "verif")]
+    pub fn verif_raw(self) -> usize {
+        self.0 as usize
     }
 
     /// Frees the memory address this pointer points to
@@ -371,6 +381,15 @@ macro_rules! impl_arith {
 
                 // Safety: We've already asserted the object type
                 Type::Float => unsafe {
+                    #[cfg(feature = "verif")]
+                    if stringify!($op) == "%" {
+                        let (a, b) = (self.as_f64_unchecked(), rhs.as_f64_unchecked());
+                        crate::verif::log_float(crate::verif::FloatOracle::Rem(
+                            a.to_bits(),
+                            b.to_bits(),
+                            (a % b).to_bits(),
+                        ));
+                    }
                     Object::float(self.as_f64_unchecked() $op rhs.as_f64_unchecked(), gc)
                 }
                 _ => return Err(Error::TypeError(format!("kan geen {} doen op objecten van type {}", stringify!($op), self.tag()))),
@@ -438,7 +457,10 @@ impl Float {
 
     #[inline]
     unsafe fn destroy(obj: Object) {
+        #[cfg(feature = "verif")]
+        crate::verif::heap_release(obj.as_ptr() as usize);
         drop_in_place(obj.as_ptr() as *mut Self);
+        #[cfg(not(feature = "verif"))]
         dealloc(obj.as_ptr(), Layout::new::<Self>());
     }
 
@@ -456,7 +478,10 @@ struct String {
 
 impl String {
     unsafe fn destroy(ptr: Object) {
+        #[cfg(feature = "verif")]
+        crate::verif::heap_release(ptr.as_ptr() as usize);
         drop_in_place(ptr.as_ptr() as *mut Self);
+        #[cfg(not(feature = "verif"))]
         dealloc(ptr.as_ptr(), Layout::new::<Self>());
     }
 
@@ -479,7 +504,10 @@ impl Array {
 
     /// Drops and deallocate this NlArray struct and its value
     unsafe fn destroy(ptr: Object) {
+        #[cfg(feature = "verif")]
+        crate::verif::heap_release(ptr.as_ptr() as usize);
         drop_in_place(ptr.as_ptr() as *mut Self);
+        #[cfg(not(feature = "verif"))]
         dealloc(ptr.as_ptr(), Layout::new::<Self>());
     }
 
@@ -500,6 +528,16 @@ impl Display for Object {
         match self.tag() {
             Type::Null => (),
             Type::Bool => f.write_str(if self.as_bool() { "ja" } else { "nee" })?,
+            #[cfg(feature = "verif")]
+            Type::Float => unsafe {
+                let v = self.as_f64_unchecked();
+                crate::verif::log_float(crate::verif::FloatOracle::Show(
+                    v.to_bits(),
+                    v.to_string(),
+                ));
+                f.write_str(&v.to_string())?
+            },
+            #[cfg(not(feature = "verif"))]
             Type::Float => unsafe { f.write_str(&self.as_f64_unchecked().to_string())? },
             Type::Int => f.write_str(&self.as_int().to_string())?,
             Type::String => unsafe { f.write_str(self.as_str_unchecked())? },
@@ -550,6 +588,8 @@ fn allocate(layout: Layout) -> *mut u8 {
     if ptr.is_null() {
         handle_alloc_error(layout);
     } else {
+        #[cfg(feature = "verif")]
+        crate::verif::heap_register(ptr as usize);
         ptr
     }
 }
